@@ -418,6 +418,14 @@ def run_one(name, mk, inj, rec, max_k):
         pairs = []
         if len(plan) >= 2:
             pairs = [(plan[i], plan[(i * 7 + 3) % len(plan)]) for i in range(0, len(plan), max(1, len(plan) // 12))]
+            # ... and neighbouring calls of the same hook (often siblings: two entries of one ExitStack, two contexts of
+            # one frame): when one fault does not end the enclosing hook, the next one fires too, and BOTH must be kept
+            full = [(kind, k) for kind in KINDS for k in range(1, counts.get(kind, 0) + 1)]
+            near = [(full[i], full[i + 1]) for i in range(len(full) - 1) if full[i][0] == full[i + 1][0]]
+            if len(near) > 40:
+                st_ = len(near) / 40.0
+                near = [near[int(i * st_)] for i in range(40)]
+            pairs += near
         for tgt in plan:
             inj.counts, inj.target, inj.fired, inj.exc = {}, tgt, None, None
             rec.take()
